@@ -97,7 +97,7 @@ func c02States(seed int64, v int, thorough bool) (states []c02State) {
 			w.push(i, r.Out)
 			flush()
 		}
-		if k == 1 || (thorough && k == 3) {
+		if k == 1 || k == 3 {
 			emit(fmt.Sprintf("rot%d", k))
 		}
 	}
@@ -221,6 +221,10 @@ func c02Mutations(st c02State, thorough bool) (out []c02Mut) {
 		}},
 		{"same", "no field changed", func(d *dataMsg) {}},
 	}
+	var rk []byte
+	for _, k := range dm.oldMACKeys {
+		rk = append(rk, k...)
+	}
 	keys := [][]byte{nil} // nil: MAC left alone
 	seen := map[string]bool{}
 	for _, k := range st.Disclosed {
@@ -230,9 +234,28 @@ func c02Mutations(st c02State, thorough bool) (out []c02Mut) {
 		}
 	}
 	keys = append(keys, bytes.Repeat([]byte{0x42}, 20), make([]byte, 20))
-	var rk []byte
-	for _, k := range dm.oldMACKeys {
-		rk = append(rk, k...)
+	// the attacker does not know which key pair a disclosed key belonged to: every small key-id pair with every
+	// disclosed key, fresh counter
+	maxID := dm.senderKeyID
+	if dm.recipientKeyID > maxID {
+		maxID = dm.recipientKeyID
+	}
+	for ki, k := range keys {
+		if k == nil || ki > len(keys)-3 {
+			continue
+		}
+		for i := uint32(1); i <= maxID+2; i++ {
+			for j := uint32(1); j <= maxID+2; j++ {
+				d := dm
+				d.serializeUnsignedCache = nil
+				d.senderKeyID, d.recipientKeyID = i, j
+				binary.BigEndian.PutUint64(d.topHalfCtr[:], 0xfffffffffffffff0)
+				unsigned := d.serializeUnsigned()
+				body := append(append([]byte{}, unsigned...), c02MAC(k, hdr, unsigned)...)
+				body = AppendData(body, rk)
+				add("subst:keyid-sweep:mac-forged", fmt.Sprintf("key ids (%d,%d), high counter, MAC recomputed with disclosed key #%d", i, j, ki), c13B64(append(append([]byte{}, hdr...), body...)))
+			}
+		}
 	}
 	for _, s := range subs {
 		for ki, k := range keys {
